@@ -85,6 +85,29 @@ def execRng (op : String) (ts : List String) : Option String :=
         let (v, g) := acc.2.next
         (acc.1 ++ " " ++ fhex (Rand.genUnit v), g)) ("ok", g)
       pure r.1
+    -- exact rational value of the drawn double against the closed forms of Proofs/C07Draw.lean:
+    -- `unitq`: gen::<f64>() = (v >>> 11) / 2^53 ; `halfq`: gen_range(-0.5, 0.5) = (v >>> 12) / 2^52 - 1/2
+    | "unitq" =>
+      let r := (List.range n).foldl (fun (acc : String × Rand.Pcg) _ =>
+        let (v, g) := acc.2.next
+        let u := Rand.genUnit v
+        let (neg, m, e) := floatParts u
+        -- u = m·2^e  must equal  (v >>> 11)·2^-53
+        let exact := !neg && (if e + 53 ≥ 0 then m * 2 ^ (e + 53).toNat == v >>> 11 else m == (v >>> 11) * 2 ^ (-(e + 53)).toNat)
+        (acc.1 ++ " " ++ fhex u ++ (if exact then " exact" else " INEXACT-MODEL"), g)) ("ok", g)
+      pure r.1
+    | "halfq" =>
+      let r := (List.range n).foldl (fun (acc : String × Rand.Pcg) _ =>
+        let (v, g) := acc.2.next
+        let u := Rand.genRangeHalf v
+        let (neg, m, e) := floatParts u
+        -- u = ±m·2^e  must equal  ((v >>> 12) - 2^51)·2^-52
+        let want : Int := Int.ofNat (v >>> 12) - 2 ^ 51
+        let got : Int := if neg then -Int.ofNat m else Int.ofNat m
+        let exact := if u == 0.0 then want == 0
+          else if e + 52 ≥ 0 then got * 2 ^ (e + 52).toNat == want else got == want * 2 ^ (-(e + 52)).toNat
+        (acc.1 ++ " " ++ fhex u ++ (if exact then " exact" else " INEXACT-MODEL"), g)) ("ok", g)
+      pure r.1
     | "mixed" => do
       let m ← pNat
       let r := (List.range n).foldl (fun (acc : String × Rand.Pcg) _ =>
